@@ -1,7 +1,9 @@
 /* R4 - the host CPU as reference.  Freestanding 32-bit static ELF (no libc):
  *   gcc -m32 -O1 -nostdlib -ffreestanding -static -fno-stack-protector -fno-pie -no-pie -o runner runner.c
- * stdin : records  { u8 code[16]; u32 len; u32 regs[8] (eax ecx edx ebx esp ebp esi edi); u32 eflags; u8 fx[512]; u8 mem[256]; }
- * stdout: results  { u32 sig; u32 regs[8]; u32 eip; u32 eflags; u8 fx[512]; u8 mem[256]; }
+ * stdin : records  { u8 code[16]; u32 len; u32 regs[8] (eax ecx edx ebx esp ebp esi edi); u32 eflags; u8 fx[512]; u8 mem[256]; u32 segs[3] (es fs gs); }
+ * stdout: results  { u32 sig; u32 regs[8]; u32 eip; u32 eflags; u8 fx[512]; u8 mem[256]; u32 segs[5] (gs fs es ds ss); }
+ * Segment registers: es/fs/gs are loaded from the record (they must be loadable selectors); ds/ss are the process's flat
+ * user data segment.  The kernel reloads ds/es on signal delivery, so an instruction may leave any loadable value there.
  * The instruction is copied to CODE+0x800 inside a page of int3; the data window is DATA+0x700..0x800.
  * After the instruction the CPU hits an int3 (SIGTRAP): the landing address is the control-flow outcome.
  */
@@ -12,8 +14,8 @@ typedef unsigned char u8;
 #define DATA 0x20000000u
 #define ALTSTK 0x30000000u
 
-struct rec { u8 code[16]; u32 len; u32 regs[8]; u32 eflags; u8 fx[512]; u8 mem[256]; };
-struct res { u32 sig; u32 regs[8]; u32 eip; u32 eflags; u8 fx[512]; u8 mem[256]; };
+struct rec { u8 code[16]; u32 len; u32 regs[8]; u32 eflags; u8 fx[512]; u8 mem[256]; u32 segs[3]; };
+struct res { u32 sig; u32 regs[8]; u32 eip; u32 eflags; u8 fx[512]; u8 mem[256]; u32 segs[5]; };
 
 static long sys3(long n, long a, long b, long c)
 {
@@ -71,6 +73,8 @@ void c_handler(u32 sig, u32 *sc)
     g_out.regs[4] = sc[7];  g_out.regs[5] = sc[6];  g_out.regs[6] = sc[5]; g_out.regs[7] = sc[4];
     g_out.eip = sc[14];
     g_out.eflags = sc[16];
+    g_out.segs[0] = sc[0] & 0xffff; g_out.segs[1] = sc[1] & 0xffff; g_out.segs[2] = sc[2] & 0xffff;
+    g_out.segs[3] = sc[3] & 0xffff; g_out.segs[4] = sc[18] & 0xffff;
     u8 *fp = (u8 *)sc[19];
     int i;
     if (fp) for (i = 0; i < 512; i++) g_out.fx[i] = fp[112 + i];
@@ -128,6 +132,9 @@ void _start(void)
             "mov %%esp, saved_esp\n\t"
             "mov %%ebp, saved_ebp\n\t"
             "fxrstor fxin\n\t"
+            "movw g_in+824, %%es\n\t"
+            "movw g_in+828, %%fs\n\t"
+            "movw g_in+832, %%gs\n\t"
             "movl $g_in+20, %%esi\n\t"       /* esi -> record regs */
             "pushl 32(%%esi)\n\t"
             "popfl\n\t"
